@@ -1,6 +1,6 @@
 (** non-vacuity for C05: concrete, non-trivial instances meeting the hypotheses of the main theorems *)
 From Coq Require Import List NArith ZArith Bool String Ascii.
-From ApiFu Require Import Base.Sexp Val.Values Val.CoerceModel Val.CoerceSpec Val.CoerceProofs Val.FloatExact Val.CoerceReasons Val.CoerceRefine Val.CoerceRoutes Val.CoerceSameValue Val.CoerceTotal Val.CoerceComplete.
+From ApiFu Require Import Base.Sexp Val.Values Val.CoerceModel Val.CoerceSpec Val.CoerceProofs Val.FloatExact Val.CoerceReasons Val.CoerceRefine Val.CoerceRoutes Val.CoerceSameValue Val.CoerceTotal Val.CoerceComplete Val.BridgeC04 Val.BridgeC04Proofs.
 Import ListNotations.
 Open Scope string_scope.
 
@@ -201,3 +201,16 @@ Example precise_is_sharper :
   runtime_reason_precise Er dtex argdefs [] args [] = false /\
   hook_reached_args Er [ (nm "x", {| in_type := StNamed (nm "R"); in_default := None |}) ] [ (nm "x", LObject [ (nm "a", LInt 1) ]) ] = true.
 Proof. cbv zeta. repeat split; vm_compute; reflexivity. Qed.
+
+(** the C04 bridge computes: C04's validateCoercion on the translation of C05's literals, numbers
+    read back from their decimal text; the example environment of the bridge theorem's corollary *)
+Example bridge_computes :
+  dec_of_Z (-2147483649) = map N_of_ascii (list_ascii_of_string "-2147483649") /\
+  c04_accepts Eint (LInt 2147483647) (StNamed (nm "Int")) true = true /\
+  c04_accepts Eint (LInt 2147483648) (StNamed (nm "Int")) true = false /\
+  c04_accepts Eint (LList [LInt 1; LNull]) (StList (StNonNull (StNamed (nm "Int")))) true = false /\
+  c04_accepts Er (LObject [ (nm "a", LInt 1) ]) (StNamed (nm "R")) true = true /\
+  c04_accepts Er (LObject [ (nm "a", LInt 1); (nm "a", LInt 2) ]) (StNamed (nm "R")) true = false /\
+  non_numeric [ (nm "String", TScalar KString); (nm "Color", TEnum [ (nm "RED", GInt 1) ]) ] = true /\
+  obj_free (LList [LEnum (nm "RED"); LString (nm "x")]) = true.
+Proof. repeat split; vm_compute; reflexivity. Qed.
